@@ -1,12 +1,14 @@
 package checks
 
 import (
+	"bufio"
 	"bytes"
 	"errors"
 	"fmt"
 	"io"
 	"math/big"
 	"math/rand"
+	"strings"
 	"testing/iotest"
 
 	multiproof "github.com/crate-crypto/go-ipa"
@@ -106,6 +108,28 @@ func c10readers() []readerKind {
 			r := bytes.NewReader(b)
 			return iotest.DataErrReader(r), nil
 		}, clean},
+		{"bytes.Reader-after-header", func(b []byte, rng *rand.Rand) (io.Reader, func() int) {
+			// the proof is the tail of a longer message whose header has already been consumed from the same reader
+			h := 1 + rng.Intn(9)
+			msg := append(make([]byte, h), b...)
+			r := bytes.NewReader(msg)
+			io.CopyN(io.Discard, r, int64(h))
+			return r, func() int { return len(b) - r.Len() }
+		}, clean},
+		{"strings.Reader-after-header", func(b []byte, rng *rand.Rand) (io.Reader, func() int) {
+			h := 1 + rng.Intn(9)
+			r := strings.NewReader(string(append(make([]byte, h), b...)))
+			io.CopyN(io.Discard, r, int64(h))
+			return r, func() int { return len(b) - r.Len() }
+		}, clean},
+		{"io.SectionReader", func(b []byte, rng *rand.Rand) (io.Reader, func() int) {
+			h := 1 + rng.Intn(9)
+			msg := append(append(make([]byte, h), b...), 0xAA, 0xBB)
+			return io.NewSectionReader(bytes.NewReader(msg), int64(h), int64(len(b))), nil
+		}, clean},
+		{"bufio.Reader", func(b []byte, rng *rand.Rand) (io.Reader, func() int) {
+			return bufio.NewReaderSize(bytes.NewReader(b), 16+rng.Intn(700)), nil
+		}, clean},
 		{"chunk-k", func(b []byte, rng *rand.Rand) (io.Reader, func() int) {
 			r := &chunkReader{data: b, chunk: 1 + rng.Intn(70), failAt: -1}
 			return r, func() int { return r.pos }
@@ -167,11 +191,13 @@ func c10valid(rng *rand.Rand, pool *Pool) []byte {
 		out = append(out, e[:]...)
 	}
 	var s *big.Int
-	switch rng.Intn(5) {
+	switch rng.Intn(7) {
 	case 0:
 		s = new(big.Int).Sub(ref.R, bigOne)
 	case 1:
 		s = new(big.Int)
+	case 2, 3:
+		s = randScalar(rng) // small, limb-structured, Montgomery-small, edge values
 	default:
 		s = randBig(rng, ref.R)
 	}
@@ -324,11 +350,19 @@ func c10honest(c *mon.Ctx, rng *rand.Rand) []byte {
 	return buf.Bytes()
 }
 
+var (
+	c10usedMulti multiproof.MultiProof
+	c10usedIPA   ipa.IPAProof
+)
+
 func c10readMulti(c *mon.Ctx, or *c10oracle, s c10str, rk readerKind, rng *rand.Rand) {
 	snap := append([]byte(nil), s.b...)
 	rd, _ := rk.mk(s.b, rng)
 	want := or.multiOK(s.b)
 	var mp multiproof.MultiProof
+	if rng.Intn(2) == 0 {
+		mp = c10usedMulti // the receiver already holds the previously accepted proof (same backing arrays)
+	}
 	var err error
 	if p, st := mon.Try(func() { err = mp.Read(rd) }); p != nil {
 		c.Fail("panic/MultiProof.Read", fmt.Sprintf("MultiProof.Read panicked on %s via %s: %v", s.cls, rk.name, p), map[string]string{"stack": st, "input": hx(snap)})
@@ -358,6 +392,7 @@ func c10readMulti(c *mon.Ctx, or *c10oracle, s c10str, rk readerKind, rng *rand.
 		}
 	default:
 		c.Count("accept_expected_and_observed", 1)
+		c10usedMulti = mp
 		// Write reproduces the input; Read(Write(p)) == p
 		var w bytes.Buffer
 		if err := mp.Write(&w); err != nil || !bytes.Equal(w.Bytes(), snap) {
@@ -404,6 +439,9 @@ func c10readIPA(c *mon.Ctx, or *c10oracle, s c10str, rk readerKind, rng *rand.Ra
 	rd, pos := rk.mk(data, rng)
 	want := or.ipaOK(data)
 	var ip ipa.IPAProof
+	if rng.Intn(2) == 0 {
+		ip = c10usedIPA
+	}
 	var err error
 	if p, st := mon.Try(func() { err = ip.Read(rd) }); p != nil {
 		c.Fail("panic/IPAProof.Read", fmt.Sprintf("IPAProof.Read panicked on %s via %s: %v", s.cls, rk.name, p), map[string]string{"stack": st, "input": hx(snap)})
@@ -422,6 +460,7 @@ func c10readIPA(c *mon.Ctx, or *c10oracle, s c10str, rk readerKind, rng *rand.Ra
 		c.Count("reject_expected_and_observed", 1)
 	default:
 		c.Count("accept_expected_and_observed", 1)
+		c10usedIPA = ip
 		if pos != nil && pos() != 544 && rk.name != "half" {
 			c.Fail("consumed-wrong-length/IPAProof.Read", fmt.Sprintf("IPAProof.Read consumed %d bytes instead of 544 (%s)", pos(), rk.name), nil)
 		}
